@@ -17,14 +17,17 @@ type trimWriter struct {
 
 // Write writes b to the current buffer. If the trim flag is set,
 // a prefix whitespace trim on b is performed before writing it to
-// the buffer and the trim flag is unset. If the trim flag was not
-// set, the current buffer is flushed before b is written.
+// the buffer and the trim flag is unset. In either case the current
+// buffer is flushed before b is written.
 // Write only returns the bytes written to w during a flush.
 func (tw *trimWriter) Write(b []byte) (n int, err error) {
 	if tw.trim {
 		b = bytes.TrimLeftFunc(b, unicode.IsSpace)
 		tw.trim = false
-	} else if n, err = tw.Flush(); err != nil {
+	}
+	// Always flush what came before: a later TrimLeft must only see this write,
+	// not text that precedes the tag that set the trim flag.
+	if n, err = tw.Flush(); err != nil {
 		return n, err
 	}
 	_, err = tw.buf.Write(b)
